@@ -173,6 +173,45 @@ class OctreeCentroids(Scenario):
             return "ok"
 
 
+class OctreeRecordsAtCreation(Scenario):
+    """an octree created with its (I, J, K, size) records among the creation arguments, in any argument order: the records
+    given are the cells, and the centres are theirs"""
+    pid = "C17"
+    builtins_for = ("geoh5py.objects.octree",)
+
+    def body(self, cx):
+        from geoh5py.workspace import Workspace
+        from geoh5py.objects import Octree
+        recs = [(0, 0, 0, 2), (2, 0, 0, 1), (3, 0, 0, 1), (2, 1, 0, 1), (0, 2, 0, 2)]
+        arr = real_np.core.records.fromarrays(real_np.array(recs, dtype="int32").T, names="I, J, K, NCells",
+                                               formats="<i4, <i4, <i4, <i4")
+        order = int(cx.int("argument_order", 0, 3))
+        counts = {"u_count": 4, "v_count": 4, "w_count": 2}
+        sizes = {"u_cell_size": 1.0, "v_cell_size": 1.0, "w_cell_size": 1.0}
+        if order == 0:
+            kw = {"octree_cells": arr, **counts, **sizes}
+        elif order == 1:
+            kw = {**counts, "octree_cells": arr, **sizes}
+        else:
+            kw = {**sizes, **counts, "octree_cells": arr}
+        ws = Workspace()
+        oc = Octree.create(ws, origin=[0.0, 0.0, 0.0], **kw)
+        got = [tuple(int(x) for x in r) for r in oc.octree_cells.tolist()]
+        cx.prove(got == recs, f"the records given at creation are the cells of the octree (argument order {order}: {len(got)} cells)",
+                 "octree records kept")
+        cx.prove(oc.n_cells == len(recs) and shape(oc.centroids)[0] == len(recs), "number of centres == number of records", "count")
+        uid = oc.uid
+        ws.close()
+        ws2 = Workspace(ws.h5file)
+        o2 = ws2.get_entity(uid)[0]
+        back = [tuple(int(x) for x in r) for r in o2.octree_cells.tolist()]
+        cx.prove(back == recs, "the stored octree holds the records given at creation", "octree records kept")
+        ce = [float(v) for v in real_np.asarray(o2.centroids).ravel()]
+        exp = [c for (i, j, k, n) in recs for c in (i + n / 2, j + n / 2, k + n / 2)]
+        cx.prove(ce == exp, "the centres are those of the records (unit cells, no rotation)", "octree centre formula")
+        return "ok"
+
+
 class GridVertical(Scenario):
     """switching a grid to vertical after its centres were read: the centres follow (dip becomes 90)"""
     pid = "C17"
@@ -191,7 +230,8 @@ class GridVertical(Scenario):
             g.u_cell_size, g.v_cell_size = su, sv
             g.origin = list(o)
             _ = g.centroids                      # warm cache at dip 30
-            g.vertical = True
+            truthy = [True, 1, real_np.bool_(True), real_np.int8(1)][self.params.get("truthy", 0)]
+            g.vertical = truthy                  # the setter accepts any of these as "vertical"
             cx.prove(g.dip == 90, "a vertical grid reports dip 90", "vertical")
             ce = elems(g.centroids)
             cd, sd = _cs(X, 90.0)
@@ -290,7 +330,8 @@ def scenarios(tier, seed):
     if tier == "quick":
         S += [BlockCentroids(shape=(2, 3, 2)), BlockCentroids(shape=(1, 1, 1), origin=False),
               GridCentroids(shape=(3, 2)), GridCentroids(shape=(1, 1)),
-              OctreeCentroids(counts=(4, 4, 4), ncell=3), GridVertical(shape=(2, 2)), PartsAfterRemoval(n=5),
+              OctreeCentroids(counts=(4, 4, 4), ncell=3), GridVertical(shape=(2, 2)), GridVertical(shape=(2, 1), truthy=1), GridVertical(shape=(1, 2), truthy=2),
+              GridVertical(shape=(1, 1), truthy=3), OctreeRecordsAtCreation(), PartsAfterRemoval(n=5),
               CurveParts(n=4, labels=3), CurveParts(n=3, labels=2)]
         for cnt in itertools.product((1, 2, 4), repeat=3):       # every axis gets to be the strictly shortest one
             S.append(OctreeCentroids(counts=cnt, origin=(sum(cnt) % 2 == 0)))
@@ -304,7 +345,8 @@ def scenarios(tier, seed):
             if max(cnt) / min(cnt) <= 4 or cnt in ((8, 1, 1), (1, 8, 2)):
                 S.append(OctreeCentroids(counts=cnt, origin=(sum(cnt) % 2 == 0)))
         S += [OctreeCentroids(counts=(4, 4, 4), ncell=4), OctreeCentroids(counts=(8, 4, 2), ncell=2, origin=False)]
-        S += [GridVertical(shape=(3, 2)), PartsAfterRemoval(n=6), PartsAfterRemoval(n=3)]
+        S += [GridVertical(shape=(3, 2)), PartsAfterRemoval(n=6), PartsAfterRemoval(n=3), OctreeRecordsAtCreation()]
+        S += [GridVertical(shape=(2, 2), truthy=t) for t in (1, 2, 3)]
         S += [CurveParts(n=5, labels=3), CurveParts(n=4, labels=4), CurveParts(n=6, labels=2), CurveParts(n=2, labels=2),
               CurveParts(n=6, labels=3), CurveParts(n=7, labels=2)]
     return S
@@ -325,6 +367,6 @@ def main(tier, seed):
                  "grids/octrees larger than the bounds", "singleton parts when comparing derived labels (vertices in no segment)"],
         bounds={"quick": "block model 2x3x2, grid 3x2, octree counts (2,2,2),(4,2,1),(2,1,2) + 3 symbolic user cells, curves n<=4 with <=3 labels",
                 "thorough": "block models up to 3x3x3, grids up to 4x4, octree counts in {1,2,4,8}^3 (ratio<=4), curves n<=6"}[tier],
-        expected_outcomes={"BlockCentroids": {"ok"}, "GridCentroids": {"ok"}, "OctreeCentroids": {"ok"}, "CurveParts": {"ok"}, "GridVertical": {"ok"},
+        expected_outcomes={"BlockCentroids": {"ok"}, "GridCentroids": {"ok"}, "OctreeCentroids": {"ok"}, "CurveParts": {"ok"}, "GridVertical": {"ok"}, "OctreeRecordsAtCreation": {"ok"},
                            "PartsAfterRemoval": {"ok"}},
     )
